@@ -290,6 +290,35 @@ fn operand_in_domain_under(
 }
 
 
+/// The array builtins are typed with a wildcard length. A type variable must not be bound to
+/// such a type: the variable would keep the wildcard even after it meets an array of a known
+/// length, and the wildcard would reach the generated code. The equation waits instead until
+/// the variable is bound from elsewhere (and is an unsolved constraint if that never happens).
+fn has_wildcard_array_length(ty: &tast::Ty) -> bool {
+    match ty {
+        tast::Ty::TArray { len, elem } => {
+            *len == tast::ARRAY_WILDCARD_LEN || has_wildcard_array_length(elem)
+        }
+        tast::Ty::TTuple { typs } => typs.iter().any(has_wildcard_array_length),
+        tast::Ty::TVec { elem } | tast::Ty::TRef { elem } => has_wildcard_array_length(elem),
+        tast::Ty::TApp { ty, args } => {
+            has_wildcard_array_length(ty) || args.iter().any(has_wildcard_array_length)
+        }
+        tast::Ty::TFunc { params, ret_ty } => {
+            params.iter().any(has_wildcard_array_length) || has_wildcard_array_length(ret_ty)
+        }
+        _ => false,
+    }
+}
+
+fn waits_for_array_length(l: &tast::Ty, r: &tast::Ty) -> bool {
+    match (l, r) {
+        (tast::Ty::TVar(_), tast::Ty::TVar(_)) => false,
+        (tast::Ty::TVar(_), t) | (t, tast::Ty::TVar(_)) => has_wildcard_array_length(t),
+        _ => false,
+    }
+}
+
 fn decompose_struct_type(ty: &tast::Ty) -> Option<(TastIdent, Vec<tast::Ty>)> {
     match ty {
         tast::Ty::TStruct { name } => Some((TastIdent::new(name), Vec::new())),
@@ -344,9 +373,16 @@ impl Typer {
             for constraint in constraints.drain(..) {
                 match constraint {
                     Constraint::TypeEqual(l, r) => {
+                        let (l, r) = (self.norm(&l), self.norm(&r));
+                        if waits_for_array_length(&l, &r) {
+                            still_pending.push(Constraint::TypeEqual(l, r));
+                            continue;
+                        }
                         if self.unify(diagnostics, &l, &r) {
                             changed = true;
                         }
+                        // equations `unify` set aside (see `waits_for_array_length`)
+                        still_pending.append(&mut self.constraints);
                     }
                     Constraint::Overloaded {
                         op,
@@ -487,6 +523,7 @@ impl Typer {
                             {
                                 changed = true;
                             }
+                            still_pending.append(&mut self.constraints);
                         } else {
                             still_pending.push(Constraint::StructFieldAccess {
                                 expr_ty: norm_expr_ty,
@@ -612,6 +649,12 @@ impl Typer {
             (tast::Ty::TVar(a), t) | (t, tast::Ty::TVar(a)) => {
                 if !occurs(diagnostics, *a, t) {
                     return false;
+                }
+                if has_wildcard_array_length(t) {
+                    // set aside until the variable is known from elsewhere
+                    self.constraints
+                        .push(Constraint::TypeEqual(tast::Ty::TVar(*a), t.clone()));
+                    return true;
                 }
                 if self.uni.unify_var_value(*a, Some(t.clone())).is_err() {
                     diagnostics.push(Diagnostic::new(
